@@ -300,3 +300,38 @@ func AllOfCycle(doc J) string {
 	}
 	return ""
 }
+
+
+// BreakRecursiveContainers replaces, in every definition, a $ref to the definition itself that is reached
+// without passing through a property (array of itself, map of itself) by a string schema, and reports how
+// many it replaced. go-openapi/analysis and the generator's type resolver recurse without end on such
+// definitions (listed known findings); checks that run these in process keep them out by construction.
+func BreakRecursiveContainers(doc J) int {
+	defs, _ := doc["definitions"].(J)
+	n := 0
+	for _, name := range sortedKeysJ(defs) {
+		self := "#/definitions/" + name
+		var rec func(v any)
+		rec = func(v any) {
+			switch x := v.(type) {
+			case J:
+				if x["$ref"] == self {
+					delete(x, "$ref")
+					x["type"] = "string"
+					n++
+				}
+				for _, k := range sortedKeysJ(x) {
+					if k != "properties" {
+						rec(x[k])
+					}
+				}
+			case A:
+				for _, e := range x {
+					rec(e)
+				}
+			}
+		}
+		rec(defs[name])
+	}
+	return n
+}
